@@ -64,6 +64,11 @@ def scenarios(ctx):
         out.append({"idx": i, "group": group, "git": False, "n": 2, "ident": "example.org", "level": "global",
                     "default_hostport": False, "more_idents": ["www.example.org", "mail.example.org"]})
         i += 1
+    # TACD_HOST in the forms an address can take: IPv6 literal in brackets (what `host:port` needs), host name
+    for h in ("[::1]", "localhost"):
+        out.append({"idx": i, "group": "tls-alpn-01-tacd-tcp", "git": False, "n": 2, "ident": "example.org",
+                    "level": "global", "default_hostport": False, "tacd_host": h})
+        i += 1
     # documented defaults of TACD_HOST (= identifier) and TACD_PORT (= 5001): run one after the other
     out.append({"idx": i, "group": "tls-alpn-01-tacd-tcp", "git": False, "n": 2, "ident": "localhost",
                 "level": "global", "default_hostport": True})
@@ -82,7 +87,7 @@ def run_one(sc, root, helper, tacd_dir):
     port = tacdrun.free_port()
     env = {"HTTP_ROOT": http_root, "TACD_PID_ROOT": pid_root, "TACD_SOCK_ROOT": sock_root}
     if sc["group"] == "tls-alpn-01-tacd-tcp" and not sc["default_hostport"]:
-        env["TACD_HOST"] = "127.0.0.1"
+        env["TACD_HOST"] = sc.get("tacd_host", "127.0.0.1")
         env["TACD_PORT"] = str(port)
     host = env.get("TACD_HOST", ident)
     tport = env.get("TACD_PORT", "5001")
